@@ -293,6 +293,53 @@ impl Ctx {
         }
     }
 
+    /// Run a property over an explicitly enumerated (finite, small by construction) list of cases.
+    /// No shrinking: the first failing case (in list order per worker) is the replay.
+    #[allow(dead_code)]
+    pub fn run_enum<T, F>(&self, sub: &str, items: Vec<T>, threads: usize, test: F)
+    where
+        T: Serialize + Clone + Send + Sync,
+        F: Fn(&T, &mut CaseInfo) -> Outcome + Sync,
+    {
+        let threads = threads.max(1);
+        let fail: Mutex<Option<(usize, T, String)>> = Mutex::new(None);
+        let chunk = (items.len() + threads - 1) / threads.max(1);
+        std::thread::scope(|sc| {
+            for (t, part) in items.chunks(chunk.max(1)).enumerate() {
+                let test = &test;
+                let fail = &fail;
+                sc.spawn(move || {
+                    for (k, case) in part.iter().enumerate() {
+                        if fail.lock().unwrap().is_some() {
+                            return;
+                        }
+                        let mut info = CaseInfo::default();
+                        let out = std::panic::catch_unwind(std::panic::AssertUnwindSafe(|| test(case, &mut info))).unwrap_or_else(|_| Outcome::Fail("PANIC".to_string()));
+                        let out = match (out, info.fail_detail.take()) {
+                            (Outcome::Known(ks), Some(d)) => match self.gate(Outcome::Known(ks)) {
+                                Outcome::Fail(m) => Outcome::Fail(format!("{}\n{}", m, d)),
+                                o => o,
+                            },
+                            (o, _) => self.gate(o),
+                        };
+                        self.record(case, &info, &out);
+                        if let Outcome::Fail(m) = out {
+                            let mut f = fail.lock().unwrap();
+                            let idx = t * chunk + k;
+                            if f.as_ref().map(|x| idx < x.0).unwrap_or(true) {
+                                *f = Some((idx, case.clone(), m));
+                            }
+                            return;
+                        }
+                    }
+                });
+            }
+        });
+        if let Some((_, value, msg)) = fail.into_inner().unwrap() {
+            self.violation(sub, &value, &msg);
+        }
+    }
+
     /// Draw `n` values from a strategy deterministically (no shrinking); for sampled tiers that
     /// drive external processes.
     pub fn sample<S: Strategy>(&self, sub: &str, n: usize, strategy: &S) -> Vec<S::Value> {
